@@ -464,6 +464,27 @@ fn cb_programs(rec: &Rec) -> Vec<Vec<CbOp>> {
         vec![CbOp::Delete, CbOp::SetRawName(nm("x"))],
         vec![],
     ];
+    // the record's present owner once more: byte for byte, with the case of every letter flipped, and as text
+    // in capitals (a change the lowercase name accessor cannot show, the packet bytes can)
+    if rec.owner.len() > 1 && rec.owner.len() <= 255 {
+        let mut flipped = rec.owner.clone();
+        let mut i = 0;
+        while i < flipped.len() && flipped[i] != 0 {
+            let l = flipped[i] as usize;
+            for b in flipped[i + 1..i + 1 + l].iter_mut() {
+                if b.is_ascii_alphabetic() {
+                    *b ^= 0x20;
+                }
+            }
+            i += 1 + l;
+        }
+        v.push(vec![CbOp::SetRawName(flipped), CbOp::Name]);
+        v.push(vec![CbOp::SetRawName(rec.owner.clone()), CbOp::Name]);
+        let text = refmodel::msg::dotted(&rec.owner);
+        if text.bytes().all(|b| b.is_ascii_alphanumeric() || b == b'.' || b == b'-' || b == b'_') {
+            v.push(vec![CbOp::SetName(text.to_ascii_uppercase().into_bytes(), vec![]), CbOp::Name]);
+        }
+    }
     if rec.rtype == T_A {
         v.push(vec![CbOp::RrIp(4)]);
         v.push(vec![CbOp::RrIp(32)]);
